@@ -321,15 +321,21 @@ def t7(rep):
     gp = groups.get("CCOK_Prefix")
     if gi is None or gp is None:
         raise AnalysisBroken("ccoPrExpr: cases CCOK_Infix / CCOK_Prefix not found")
-    precs = []
+    from .peval import peval
+    pnodes = []
     for st in gi["stmts"]:
         for c in common.calls(st, "ccoPrExpr"):
-            precs.append(common.render(strip(c["c"][2])))
-    if len(precs) == 2 and "isLtoR" in precs[0] and "isLtoR" in precs[1] and ("!" in precs[0]) != ("!" in precs[1]):
+            pnodes.append(c["c"][2])
+    vals = None
+    if len(pnodes) == 2:
+        vals = [(peval(pnodes[0], {"isLtoR": v, "iPrec": 10}), peval(pnodes[1], {"isLtoR": v, "iPrec": 10})) for v in (1, 0)]
+    precs = [common.render(strip(x)) for x in pnodes]
+    if vals == [(10, 11), (11, 10)]:
         rep.ok("T7", "infix-operand-precedence", sample={"left": precs[0], "right": precs[1]})
     else:
         rep.violation("T7", "infix-operand-precedence", "ccode.c:%d (ccoPrExpr)" % gi["line"],
-                      "the two operands of an infix node must be printed with precedence iPrec + !isLtoR and iPrec + isLtoR; found %s" % precs)
+                      "the operands of an infix node must be printed with precedence iPrec (on the side the operator associates to) and "
+                      "iPrec + 1 (on the other side); found %s, evaluating to %s for left-to-right / right-to-left" % (precs, vals))
     sep = False
     for st in gp["stmts"]:
         for x in walk(st):
